@@ -138,7 +138,9 @@ type gen struct {
 	bods  map[string][][]*node
 }
 
-func newGen(al alphabet) *gen { return &gen{al: al, stmts: map[string][]*node{}, bods: map[string][][]*node{}} }
+func newGen(al alphabet) *gen {
+	return &gen{al: al, stmts: map[string][]*node{}, bods: map[string][][]*node{}}
+}
 
 func (g *gen) sets(c gctx) []int {
 	switch {
